@@ -424,6 +424,41 @@ fn objstm_n_family() -> Vec<(String, Vec<u8>)> {
         f.extend_from_slice(format!("trailer\n<</Size {}/Root 1 0 R>>\nstartxref\n{}\n%%EOF", offs.len() + 1, x).as_bytes());
         out.push((format!("objstm /N {} with {} pairs x {} containers", n, pairs, containers), f));
     }
+    // three Flate-compressed object streams that inflate to 32 + 17 + 17 MiB (a 130 KB file): whatever limit a
+    // reader puts on the total, which containers it keeps must not depend on the order in which workers finish
+    {
+        use std::io::Write;
+        let mut f = b"%PDF-1.5\n".to_vec();
+        let mut offs = vec![];
+        offs.push(f.len());
+        f.extend_from_slice(b"1 0 obj\n<</Type/Catalog>>\nendobj\n");
+        for (c, mib) in [32usize, 17, 17].iter().enumerate() {
+            let a = 10 + 2 * c;
+            let first_obj = format!("<</Container {} /Member 0>>", c);
+            let pad = mib << 20;
+            let index = format!("{} 0 {} {} ", a, a + 1, first_obj.len() + pad);
+            let mut enc = flate2::write::ZlibEncoder::new(Vec::new(), flate2::Compression::new(6));
+            enc.write_all(index.as_bytes()).unwrap();
+            enc.write_all(first_obj.as_bytes()).unwrap();
+            let chunk = vec![b' '; 1 << 20];
+            for _ in 0..*mib {
+                enc.write_all(&chunk).unwrap();
+            }
+            enc.write_all(format!("[{} 1]", c).as_bytes()).unwrap();
+            let data = enc.finish().unwrap();
+            offs.push(f.len());
+            f.extend_from_slice(format!("{} 0 obj\n<</Type/ObjStm/N 2/First {}/Filter/FlateDecode/Length {}>>\nstream\n", 2 + c, index.len(), data.len()).as_bytes());
+            f.extend_from_slice(&data);
+            f.extend_from_slice(b"\nendstream\nendobj\n");
+        }
+        let x = f.len();
+        f.extend_from_slice(format!("xref\n0 {}\n0000000000 65535 f \n", offs.len() + 1).as_bytes());
+        for o in &offs {
+            f.extend_from_slice(format!("{:010} 00000 n \n", o).as_bytes());
+        }
+        f.extend_from_slice(format!("trailer\n<</Size {}/Root 1 0 R>>\nstartxref\n{}\n%%EOF", offs.len() + 1, x).as_bytes());
+        out.push(("object streams inflating to 32 + 17 + 17 MiB".to_string(), f));
+    }
     out
 }
 
